@@ -99,6 +99,13 @@ DESCR = {
 }
 
 
+NOT_CLAIMED = {
+    'C07_r7e': 'ill-formed message (shorter second bitmap without 235000): FM-94 designates nothing, the unchanged library refuses it',
+    'C09_r7e': 'needs a message whose wiring raises; only known shape is on the grey list (class 33 after a completed quality run)',
+    'C19_r7e': 'writer state after a refused write is not part of the statement; reported as ADVISORY probe only',
+}
+
+
 def from_notes(d):
     """(change, needs) taken from the seeder's own notes.md when no hand-written description exists"""
     import re
@@ -165,6 +172,8 @@ def main(argv):
             ran['caught_by'] = res.get('caught_by', [])
             ran['inconclusive'] = res.get('inconclusive', [])
             ran['signatures'] = {c: v['first'].split(' sig=')[-1].split(' n=')[0] for c, v in res['checks'].items() if v.get('first')}
+        if sid in NOT_CLAIMED:
+            ran['not_claimed'] = NOT_CLAIMED[sid]
         meta['ran'] = ran
         with open(os.path.join(d, 'meta.json'), 'w') as fh:
             json.dump(meta, fh, indent=1)
@@ -177,7 +186,7 @@ def main(argv):
         fh.write('| id | change | needs | first pass | caught by (quick) |\n|----|--------|-------|-----------|-------------------|\n')
         for sid, what, needs, ran in rows:
             fh.write('| %s | %s | %s | %s | %s |\n' % (sid, what, needs, ran.get('target_check_first_pass', '-').split(' ')[0],
-                                                   ', '.join(ran.get('caught_by', [])) or '-'))
+                                                   ', '.join(ran.get('caught_by', [])) or ('not claimed: ' + ran['not_claimed'] if ran.get('not_claimed') else '-')))
     print('wrote %d meta.json files and seeded/INDEX.md' % len(rows))
 
 
